@@ -90,7 +90,12 @@ func (sel *Selection) Split(node Node) *Selection {
 	fork := *sel
 	fork.parent = nil
 	fork.Browser = NewBrowser(meta.RootModule(sel.Path.Meta), node)
+	// the other side of an edit is written too (UpsertInto, InsertInto,
+	// UpdateInto): values must still belong to the leaf's type
 	fork.Constraints = &Constraints{}
+	if sel.Browser == nil || !sel.Browser.DisableConstraints {
+		fork.Constraints.AddConstraint("field", 100, 0, fieldConstraints{})
+	}
 	fork.Node = node
 	return &fork
 }
